@@ -127,6 +127,18 @@ def run(workdir, extract):
         ctx.check(F.consts['OFFSET']['v'] == 12 and F.consts['NAME']['v'] == 'fixture_table' and F.consts['MAGIC']['v'] == {'raw': [1, 2, 3]}, 'consts', 'constant evaluation')
     case('tag_maps_and_consts', False, tags)
 
+    def fullrange(fnname):
+        def f(ctx):
+            from rules import shared as S
+            S.full_range_fn(ctx, ctx.fn(fnname), 'fixture walker', 'Br::count_children', ('Br::child_page',))
+        return f
+    case('fullrange_rev_good', False, fullrange('walk_rev_good'))
+    case('fullrange_arith_good', False, fullrange('walk_arith_good'))
+    case('fullrange_inclusive_good', False, fullrange('walk_inclusive_good'))
+    case('fullrange_skips_zero_bad', True, fullrange('walk_skips_zero_bad'))
+    case('fullrange_skip_adaptor_bad', True, fullrange('walk_skip_adaptor_bad'))
+    case('fullrange_short_bad', True, fullrange('walk_short_bad'))
+
     bad = [c for c in cases if not c['ok']]
     return {'ok': not bad, 'detail': 'all %d canary cases behaved' % len(cases) if not bad else 'canary mismatch: %s' % [(c['case'], c['got_violation'], c['error']) for c in bad],
             'obligations': len(cases), 'cases': cases}
